@@ -324,3 +324,29 @@ fn keynum_image_order_full() {
     let b = any_number();
     assert!(image(&a).cmp(&image(&b)) == a.cmp(&b));
 }
+
+/// C03/C18: the text `Display for Number` prints for an integer (what to_string / to_pretty_string emit for number
+/// payloads) is the canonical decimal numeral of exactly that value: optional '-', no leading zeros, digits only,
+/// and reading it back as an integer gives the value. (The f64 branch is ryu: out of CBMC's reach, trusted.)
+#[kani::proof]
+#[kani::unwind(22)]
+fn num_display_ints() {
+    let signed: bool = kani::any();
+    let (n, exact) = if signed { let v: i64 = kani::any(); (Number::Int64(v), v as i128) } else { let v: u64 = kani::any(); (Number::UInt64(v), v as i128) };
+    let s = n.to_string();
+    let b = s.as_bytes();
+    assert!(b.len() >= 1 && b.len() <= 20);
+    let neg = b[0] == b'-';
+    let start = if neg { 1 } else { 0 };
+    assert!(b.len() > start);
+    assert!(!(b[start] == b'0' && b.len() > start + 1));
+    let mut acc: i128 = 0;
+    let mut i = start;
+    while i < b.len() {
+        assert!(b[i] >= b'0' && b[i] <= b'9');
+        acc = acc * 10 + (b[i] - b'0') as i128;
+        i += 1;
+    }
+    assert!(neg == (exact < 0));
+    assert!((if neg { -acc } else { acc }) == exact);
+}
